@@ -899,8 +899,8 @@ static Bounds bounds_for(const Args &A, int B) {
     b.Bb = B + 3;
     b.Cc = 2;
   } else {
-    b.A = (int)A.geti("quick-dumps", 12);
-    b.Bb = std::min(B + 2, 6);
+    b.A = (int)A.geti("quick-dumps", 10);
+    b.Bb = std::min(B + 2, 5);
     b.Cc = 1;
   }
   b.recovery = true;
@@ -990,9 +990,11 @@ int main(int argc, char **argv) {
   std::vector< int > Bs;
   if (A.kv.count("B"))
     Bs.push_back((int)A.geti("B", 1));
-  else
+  else if (A.thorough())
     for (int b = 0; b <= 8; ++b)
       Bs.push_back(b);
+  else
+    Bs = {0, 1, 2, 3, 5, 8}; // quick: sub-lattice of the backup counts
   // one worker process per B; heavier ones first
   std::vector< pid_t > pids;
   for (int i = (int)Bs.size() - 1; i >= 0; --i) {
@@ -1091,9 +1093,12 @@ int main(int argc, char **argv) {
   R.set_json("per_backup_count", perB);
   {
     Bounds b = bounds_for(A, 8);
-    R.set_str("bound", fmt("B in 0..8; D^a a<=%d; then R D^b b<=min-rule(%d for B=8); then R D^c c<=%d; "
+    std::string bl;
+    for (int bb : Bs)
+      bl += fmt("%s%d", bl.empty() ? "" : ",", bb);
+    R.set_str("bound", fmt("B in {%s}; D^a a<=%d; then R D^b b<=min-rule(%d for B=8); then R D^c c<=%d; "
                            "crash at every event of every dump + torn writes; recovery dump after every crash",
-                           b.A, b.Bb, b.Cc));
+                           bl.c_str(), b.A, b.Bb, b.Cc));
   }
   remove_fast_tmpdir(tmp);
   return R.finish(A);
